@@ -101,11 +101,13 @@ Proof.
   - exact H.
   - exact H.
   - cbn [fst]. unfold store_step. destruct (inflight s); [|exact H]. destruct (flushing s) as [[g fb]|]; [|exact H].
-    destruct (nth_error fb (N.to_nat i)) as [[k v]|]; [|exact H]. eapply oinv_frame; [exact H|..]; reflexivity.
+    destruct (nth_error fb (N.to_nat i)) as [[k v]|]; [|exact H]. destruct (is_cne (fpne s) (k, v)); [exact H|]. eapply oinv_frame; [exact H|..]; reflexivity.
   - cbn [fst]. unfold complete_exist. destruct (inflight s) eqn:Ei; [|exact H].
     eapply oinv_frame; [apply (oinv_complete s w false H)|..]; reflexivity.
   - cbn [fst]. unfold tm_start. destruct (_ && _); [|exact H]. eapply oinv_frame; [exact H|..]; reflexivity.
   - cbn [fst]. eapply oinv_frame; [exact H|..]; reflexivity.
+  - exact H.
+  - destruct (is_nil v); cbn [fst]; [exact H|]. eapply oinv_frame; [apply (oinv_write s w k v H)|..]; reflexivity.
   - exact H.
 Qed.
 
@@ -136,6 +138,8 @@ Proof.
       + injection E2 as Ea El. apply IH; cbn [rmap rstages wl wstk]; assumption.
     - destruct (rstages r) as [|a l] eqn:Er, (wstk w) as [|a' l'] eqn:Ew; cbn [map] in E2; try discriminate.
       + apply IH; [assumption|]. rewrite Er, Ew; reflexivity.
-      + injection E2 as Ea El. apply IH; cbn [rmap rstages wl wstk]; assumption. }
+      + injection E2 as Ea El. apply IH; cbn [rmap rstages wl wstk]; assumption.
+    - destruct (is_nil v); [apply IH; assumption|]. apply IH; cbn [rmap rstages wl wstk]; [|exact E2].
+      rewrite writes_of_snoc, E1; reflexivity. }
   apply G; reflexivity.
 Qed.
